@@ -125,6 +125,12 @@ func Scenarios(prop string) []gx.Sc {
 			out = append(out, gx.Sc{Name: "prod?" + q, Q: m.b, T: m.t})
 		}
 	}
+	if prop == "C01" || prop == "C04" || prop == "C12" {
+		// the hand-over of a partition to a broker worker (its syn marker) as a decision point: the worker may have lost its
+		// connection between being chosen and being told
+		out = append(out, gx.Sc{Name: "prod?rm=0&nm=3&parts=0,1,0&nb=1&policy=input&faults=" + Faults + "&gates=" + Gates + ",pp.syn", Q: 3, T: 4})
+		out = append(out, gx.Sc{Name: "prod?sync=1&rm=0&nm=3&parts=0,1,0&nb=1&policy=input&faults=drop,notleader&gates=" + Gates + ",pp.syn", Q: 2, T: 3})
+	}
 	if prop == "C18" {
 		out = append(out, gx.Sc{Name: "prod?rm=1&nm=2&icpt=2&icptpanic=1&faults=" + Faults + "&gates=" + Gates, Q: 2, T: 3})
 		// the panicking interceptor in the middle and at the end of a longer chain (the ones before it must not run again,
@@ -132,6 +138,8 @@ func Scenarios(prop string) []gx.Sc {
 		out = append(out, gx.Sc{Name: "prod?rm=1&nm=2&icpt=4&icptpanic=3&faults=" + Faults + "&gates=" + Gates, Q: 1, T: 2})
 		out = append(out, gx.Sc{Name: "prod?rm=1&nm=2&icpt=3&icptpanic=2&faults=" + Faults + "&gates=" + Gates, Q: 1, T: 2})
 		out = append(out, gx.Sc{Name: "prod?rm=1&nm=1&icpt=3&icptpanic=3&faults=" + Faults + "&gates=" + Gates, Q: 1, T: 2})
+		// a submission the dispatcher rejects (larger than MaxMessageBytes) while another message is being retried
+		out = append(out, gx.Sc{Name: "prod?rm=2&nm=3&np=1&big=2&icpt=2&policy=input&faults=" + Faults + "&gates=" + Gates, Q: 2, T: 3})
 	}
 	return out
 }
